@@ -6,3 +6,4 @@ import MicroHttp.Props.Tables
 #print axioms MicroHttp.C18.kill_switch_kept
 #print axioms MicroHttp.Tables.event_array_extra
 #print axioms MicroHttp.Tables.max_connections
+#print axioms MicroHttp.Tables.no_shared_state
